@@ -91,6 +91,20 @@ func scenSelfRemove(dev int, oracles []string) *simScenario {
 	return sc
 }
 
+// a new leader inherits a pending promotion: n3 is being promoted, the old leader n1 crashed and is back as
+// follower, n2 has just won term 3 and its no-op is not committed yet; n3 is about to acknowledge everything
+func scenPendingNewLeader(dev int) *simScenario {
+	base := memberSeedByName("promoting")
+	script := append(append([]string{}, base.script...),
+		`ev:{"k":"RS","n":0,"f":3}`, "deliver:3", `ev:{"k":"RR","n":0,"f":3}`, `ev:{"k":"RS","n":0,"f":3}`, "deliver:3",
+		"crash:1", "restart:1", "elect:2")
+	seed := memberSeed{"pending-newleader", 3, base.voters, base.nonvoters, script, nil}
+	sc := scenMember(seed, dev, 0, 0, false, nil, 0)
+	sc.Menu = simMenu{Drops: true}
+	sc.Crashes = 0
+	return sc
+}
+
 func scenDurableCut() *simScenario {
 	cut := scenRepl(replSeed{"durable-cut", []string{"T:1", "run", "block:1:3", "update:1", "update:1"}}, 2, true, 0, 0, 3)
 	cut.Name = "durable-cut"
@@ -102,6 +116,7 @@ func scenDurableCut() *simScenario {
 
 func init() {
 	simScenarios["durable-cut"] = scenDurableCut()
+	simScenarios["member-pending-newleader"] = scenPendingNewLeader(1)
 	simScenarios["member-selfremove"] = scenSelfRemove(2, nil)
 	for _, s := range memberSeeds {
 		simScenarios["member-"+s.name] = scenMember(s, 1, 1, 0, false, []string{"durable"}, 1)
@@ -114,7 +129,9 @@ func init() {
 		return 240 * time.Second
 	}
 	c08 := &simCheckSpec{Prop: "C08", Oracles: []string{"config", "leader", "commit"},
-		Scenarios: func(t string) []*simScenario { return memberScenarios(t, nil, 0) }, Budget: budget,
+		Scenarios: func(t string) []*simScenario {
+			return append([]*simScenario{scenPendingNewLeader(1)}, memberScenarios(t, nil, 0)...)
+		}, Budget: budget,
 		MustReach: []string{"configs"}}
 	vkChecks["C08"] = func(args []string) int { return runSimCheck(c08, args) }
 	// "acknowledgements [of non-voters] never count towards commitment": the durable-on-a-voter-majority oracle runs here too
